@@ -1,9 +1,152 @@
-import Rs1090.Proofs.Decode.Wp
+/-
+BDS 1,7 reader (and the flag-list reader shared with BDS 1,8 / 1,9): panic-freedom (C01),
+serialisation (C07), ranges (C08) — for every reader state.
+-/
+import Rs1090.Proofs.Decode.Bds10
 import Rs1090.Model.Decode.Bds17
-namespace Rs1090.Model.Bds17
-open Rs1090 Rs1090.Model
 
-/-- STUB proof for the STUB reader (replaced together with the model) -/
-theorem read_noPanic : NoPanic read := by unfold read; exact noPanic_fail _
+namespace Rs1090.Model.Gicb
+open Rs1090 Rs1090.Model Rs1090.Model.CommbA
+
+theorem applyRule_noPanic (r : Rule) (v : Bool) : (applyRule r v).isPanic = false := by
+  cases r <;> cases v <;> rfl
+
+/-- what `readFlags l` returns: the keys of `l` in order, each either skipped or `true` -/
+def FlagFields (l : List (Key × Rule)) (fs : Fields) : Prop :=
+  fs.map (·.1) = l.map (·.1) ∧ ∀ f ∈ fs, f.2 = none ∨ f.2 = some (.bool true)
+
+theorem flagField_snd (k : Key) (v : Bool) :
+    (flagField k v).2 = none ∨ (flagField k v).2 = some (.bool true) := by
+  cases v
+  · left; rfl
+  · right; rfl
+
+/-- symbolic execution of the flag-list reader: no panic, and the result has the shape above -/
+theorem readFlags_wp (l : List (Key × Rule)) (Q : Fields → Rd → Prop) (s : Rd)
+    (h : ∀ fs s', FlagFields l fs → Q fs s') : wp (readFlags l) Q s := by
+  induction l generalizing Q s with
+  | nil =>
+    unfold readFlags; rw [wp_pure]
+    exact h _ _ ⟨rfl, fun f hf => by cases hf⟩
+  | cons kr rest ih =>
+    rcases kr with ⟨k, r⟩
+    unfold readFlags
+    rw [wp_bind]; apply wp_flag_any; intro v s1
+    rw [wp_bind]; apply wp_lift_of (applyRule_noPanic r v); intro v' _
+    rw [wp_bind]; apply ih; intro fs s2 hfs
+    rw [wp_pure]; apply h
+    refine ⟨?_, ?_⟩
+    · simp only [List.map_cons, hfs.1]; rfl
+    · intro f hf
+      rcases List.mem_cons.mp hf with rfl | hf
+      · exact flagField_snd k v'
+      · exact hfs.2 f hf
+
+theorem readFlags_noPanic (l : List (Key × Rule)) : NoPanic (readFlags l) :=
+  fun s => readFlags_wp l _ s (fun _ _ _ => trivial)
+
+theorem map_id_of_flagFields {l : List (Key × Rule)} {fs : Fields} (h : FlagFields l fs) :
+    fs.map (·.1.id) = l.map (·.1.id) := by
+  have := congrArg (List.map Key.id) h.1
+  simp only [List.map_map] at this
+  exact this
+
+/-- C07 for a flag register: the static key list (tag included) has no duplicate, so whatever
+    subset of the flags is printed has none either; the values are the literal `true`. -/
+theorem flags_serGood (tag name : Key) (l : List (Key × Rule)) (fs : Fields) (h : FlagFields l fs)
+    (hnd : decide ((tag.id :: l.map (·.1.id)).Nodup) = true) :
+    SerGood [] (tagged tag name (.ok fs)) := by
+  refine ⟨fld tag (.lit name) :: fs, rfl, ?_, fun _ _ => List.not_mem_nil, ?_⟩
+  · apply nodup_toObj
+    have : (fld tag (Json.lit name) :: fs).map (·.1.id) = tag.id :: l.map (·.1.id) := by
+      simp only [List.map_cons, map_id_of_flagFields h]; rfl
+    rw [this]; exact of_decide_eq_true hnd
+  · rw [Json.wfObj_iff]
+    intro kv hkv
+    rcases kv with ⟨k, v⟩
+    have hm := mem_toObj hkv
+    rcases List.mem_cons.mp hm with heq | hm
+    · have : some v = some (Json.lit name) := congrArg Prod.snd heq
+      cases this; rfl
+    · rcases h.2 _ hm with h0 | h1
+      · cases h0
+      · have : some v = some (Json.bool true) := h1
+        cases this; rfl
+
+/-- C08 for a flag register: none of the keys names a constrained quantity -/
+theorem flags_rangeGood (tag name : Key) (l : List (Key × Rule)) (fs : Fields) (h : FlagFields l fs)
+    (hsp : (tag.id :: l.map (·.1.id)).all (fun k => (specFor k).isNone) = true) :
+    RangeGood (tagged tag name (.ok fs)) := by
+  apply rangeGood_tagged
+  apply inRangeObj_of
+  intro kv hkv
+  rcases kv with ⟨k, v⟩
+  have hm := mem_toObj hkv
+  have hid : k.id ∈ tag.id :: l.map (·.1.id) := by
+    have : k.id ∈ (fld tag (Json.lit name) :: fs).map (·.1.id) :=
+      List.mem_map.mpr ⟨_, hm, rfl⟩
+    rw [List.map_cons, map_id_of_flagFields h] at this
+    exact this
+  have hs := List.all_eq_true.mp hsp _ hid
+  refine ⟨by simpa [Option.isNone_iff_eq_none] using hs, ?_⟩
+  rcases List.mem_cons.mp hm with heq | hm
+  · have : some v = some (Json.lit name) := congrArg Prod.snd heq
+    cases this; rfl
+  · rcases h.2 _ hm with h0 | h1
+    · cases h0
+    · have : some v = some (Json.bool true) := h1
+      cases this; rfl
+
+end Rs1090.Model.Gicb
+
+namespace Rs1090.Model.Bds17
+open Rs1090 Rs1090.Model Rs1090.Model.CommbA Rs1090.Model.Gicb
+
+theorem checkZeros_wp (l : List Nat) (Q : Bool → Rd → Prop) (s : Rd)
+    (h : ∀ b s', Q b s') : wp (checkZeros l) Q s := by
+  induction l generalizing s with
+  | nil => unfold checkZeros; rw [wp_pure]; exact h _ _
+  | cons n rest ih =>
+    unfold checkZeros
+    rw [wp_bind]; apply wp_bits_any; intro v s1 _
+    wp_if hv
+    · rw [wp_fail]; trivial
+    · exact ih s1
+
+/-- C01 -/
+theorem read_noPanic : NoPanic read := by
+  intro s
+  unfold NoPanicAt read
+  rw [wp_bind]; apply readFlags_wp; intro fs s1 _
+  wp_run
+  apply checkZeros_wp; intro _ _
+  wp_run
+
+/-- the 25 keys of the serialised register (`bds` + 24 flags) are pairwise distinct -/
+theorem keys_nodup : decide (((key! "bds").id :: flags.map (·.1.id)).Nodup) = true := by decide
+
+/-- none of them is a key of the C08 table -/
+theorem keys_unconstrained :
+    ((key! "bds").id :: flags.map (·.1.id)).all (fun k => (specFor k).isNone) = true := by decide
+
+/-- C07 -/
+theorem read_serGood : ∀ s, wp read (fun r _ => SerGood [] r) s := by
+  intro s
+  unfold read
+  rw [wp_bind]; apply readFlags_wp; intro fs s1 hfs
+  wp_run
+  apply checkZeros_wp; intro _ _
+  wp_run
+  exact flags_serGood _ _ flags fs hfs keys_nodup
+
+/-- C08 -/
+theorem read_rangeGood : ∀ s, wp read (fun r _ => RangeGood r) s := by
+  intro s
+  unfold read
+  rw [wp_bind]; apply readFlags_wp; intro fs s1 hfs
+  wp_run
+  apply checkZeros_wp; intro _ _
+  wp_run
+  exact flags_rangeGood _ _ flags fs hfs keys_unconstrained
 
 end Rs1090.Model.Bds17
